@@ -231,7 +231,7 @@ def fit_param_cases(run, exprs, descr):
             pf["model_key"] = mk
             defaults = model.get_init_parms(mk)
             stored = {}
-            for p in list(defaults) + ["E", "zzz"]:
+            for p in list(defaults) + ["E", "zzz", "alpha", "E_L", "t"]:
                 if rng.random() < 0.5:
                     v = in_bounds_value(rng, defaults.get(p), edges=True)
                     pf[f"fit param {p} value"] = v
@@ -267,6 +267,17 @@ def fit_param_cases(run, exprs, descr):
                 if after.get(f"fit param {p} value") != got[p].value or \
                         after.get(f"fit param {p} vary") != got[p].vary:
                     why = why or f"{p} not written back to the profile"
+            # ... and nothing else in the profile changes: entries of
+            # parameters the selected model does not have (stored for another
+            # model) stay as they are
+            lost = [k for k in before if k not in after
+                    or jtxt(after[k]) != before[k]
+                    and not any(k == f"fit param {p} {w}" for p in defaults
+                                for w in ("value", "vary"))]
+            if lost and not why:
+                why = (f"entries {lost} (not parameters of {mk}) were "
+                       "removed from / changed in the profile by "
+                       "get_fit_params")
             if why:
                 run.failing(SITE, f"fitparams:{mk}:{rep}",
                             f"get_fit_params for {mk} with {stored}: {why}",
